@@ -253,7 +253,7 @@ def run_tlc(module, cfg, env=None, workers=1, simulate=None, depth=None, coverag
             res.printed.append(ln)
     for m in re.finditer(r'^<(\w+) line \d+, col \d+ to line \d+, col \d+ of module (\w+)>: (\d+):(\d+)', out, re.M):
         res.coverage[m.group(1)] = (int(m.group(3)), int(m.group(4)))
-    m = re.search(r'Invariant (\w+) is violated', out)
+    m = re.search(r'Invariant (\w+) is violated', out) or re.search(r'The invariant of (\w+) is equal to FALSE', out)
     if m:
         res.violated = m.group(1)
     m = re.search(r'Action property (\w+) is violated|Temporal properties were violated', out)
